@@ -46,6 +46,23 @@ fn chk(c: &mut Ctx, segs: &[(char, Vec<u8>)], attrs: &[A], subst: &[(usize, usiz
     let res = guarded(|| t.transform_attributions(&diffs, &old, cur, &inss, &mappings, ts, subst));
     let out = match res { Ok(v) => v, Err(p) => { c.fail("region_ta_equal", "safety", input, p, "no panic".into()); return; } };
     let got: Vec<A> = out.iter().map(|a| (a.start, a.end, a.author_id.clone(), a.ts)).collect();
+    // merge_attributions (the last phase of update_attributions; outside the Verus subset): merging must neither lose nor
+    // invent coverage for any (author, ts), and must keep zero-length deletion markers
+    {
+        let merged = match guarded(|| t.merge_attributions(out.iter().map(|a| Attribution::new(a.start, a.end, a.author_id.clone(), a.ts)).collect())) {
+            Ok(m) => m, Err(p) => { c.fail("merge_attributions", "safety", input, p, "no panic".into()); return; } };
+        let mg: Vec<A> = merged.iter().map(|a| (a.start, a.end, a.author_id.clone(), a.ts)).collect();
+        let hi = got.iter().chain(mg.iter()).map(|g| g.1).max().unwrap_or(0) + 1;
+        for g in got.iter().chain(mg.iter()) {
+            for x in 0..hi {
+                let cov = |v: &Vec<A>| v.iter().any(|r| r.2 == g.2 && r.3 == g.3 && r.0 <= x && x < r.1);
+                if cov(&got) != cov(&mg) { c.fail("merge_attributions", "coverage_preserved", input.clone(), format!("{:?}", mg), format!("same coverage per (author, ts) as {:?}", got)); return; }
+            }
+        }
+        let mut z0: Vec<A> = got.iter().filter(|g| g.0 == g.1).cloned().collect(); z0.sort(); z0.dedup();
+        let mut z1: Vec<A> = mg.iter().filter(|g| g.0 == g.1).cloned().collect(); z1.sort(); z1.dedup();
+        if z0 != z1 { c.fail("merge_attributions", "markers_preserved", input.clone(), format!("{:?}", z1), format!("{:?}", z0)); return; }
+    }
     let (mut op, mut np) = (0usize, 0usize);
     let mut ins_idx = 0usize;
     let mut del_idx = 0usize;
